@@ -632,12 +632,15 @@ impl<'r> Lowerer<'r> {
     ) -> Value {
         let name = func.name;
 
+        // The arguments will be dropped by the callee. However, they have to
+        // stay live until all arguments have been evaluated, because a later
+        // argument can leave the function early (with `return` or `?`), in
+        // which case the arguments that were already evaluated must be
+        // dropped.
         let mut args = Vec::new();
         if let Some((receiver, ty)) = receiver {
             let ty = self.type_info.convert(&ty);
-            // This values will be dropped by the callee
-            let tmp = self.undropped_tmp();
-            self.vars.push((tmp.clone(), ty));
+            let tmp = self.tmp(ty);
 
             self.do_assign(Place::new(tmp.clone(), ty), ty, receiver);
             args.push(tmp);
@@ -648,13 +651,16 @@ impl<'r> Lowerer<'r> {
             let ty = self.type_info.convert(&ty);
             let op = self.expr(a);
 
-            // These values will be dropped by the callee
-            let tmp = self.undropped_tmp();
-            self.vars.push((tmp.clone(), ty));
+            let tmp = self.tmp(ty);
 
             self.do_assign(Place::new(tmp.clone(), ty), ty, op);
             tmp
         }));
+
+        // From here on, the callee is responsible for dropping them.
+        for arg in &args {
+            self.remove_live_variable(arg);
+        }
 
         let mir_signature = ty::Signature {
             parameter_types: func
